@@ -180,6 +180,8 @@ func multiDefectCases(runs int) []c08Case {
 		// keys that a "natural" or numeric-aware comparison would treat as equal: zero padding, numbers beyond 2^64, case
 		{Files: y("meta:\n  imports: {a1: \"p/a1\", a01: \"p/a01\", a001: \"p/a001\"}\nparameters:\n  p1: 1\n  p01: 2\n  p001: 3\n  p10: 4\n  p2: 5\n  id18446744073709551616: 6\n  id18446744073709551617: 7\n  id36893488147419103232: 8\n  Key: 9\n  key: 10\n  KEY: 11\nservices:\n  s7: {constructor: a1.New, getter: G7, tags: [t1, t01, t001]}\n  s07: {constructor: a01.New, getter: G07, tags: [t001, t01, t1]}\n  s007: {constructor: a001.New, getter: G007, fields: {F1: 1, F01: 2, F001: 3}}\n  S7: {constructor: a1.New2, getter: g7}\n"), Runs: runs, Labels: []string{"valid:keys-equal-under-natural-or-case-insensitive-order"}},
 		{Files: y("parameters:\n  p1: \"%x1%\"\n  p01: \"%x01%\"\n  p001: \"%x001%\"\n  id18446744073709551616: \"%y%\"\n  id18446744073709551617: \"%y%\"\nservices:\n  s7: {constructor: New, arguments: [\"@g7\", \"@g07\", \"@g007\"]}\n  s07: {constructor: New, arguments: [\"@g007\", \"@g7\"]}\n  s007: {constructor: New, fields: {F1: \"@h1\", F01: \"@h01\", F001: \"%z001%\"}}\n"), Runs: runs, Labels: []string{"multi:missing-names-equal-under-natural-order"}},
+		{Files: y("services:\n  s1:\n    constructor: NewX\n    tags: [{name: 5, priority: \"high\"}, {name: [a], priority: 1.5}]\n  s2:\n    constructor: NewX\n    tags: [{priority: \"x\", name: {a: 1}}]\n"), Runs: runs, Labels: []string{"multi:one-tag-object-with-two-type-defects"}},
+		{Files: y("services:\n  s1:\n    constructor: NewX\n    calls: [[1, 2, 3], [M, x, y]]\n    scope: [a]\n    getter: {a: 1}\n    todo: maybe\n"), Runs: runs, Labels: []string{"multi:one-service-with-several-type-defects"}},
 		{Files: y("parameters:\n  a: \"%m1% %m2%\"\n  b: \"%m3%\"\nservices:\n  s1: {constructor: NewX, arguments: [\"@g1\", \"%m4%\", \"@g2\"], fields: {B: \"@g3\", A: \"%m5%\"}}\n  s2: {constructor: NewX, calls: [[M, [\"@g4\", \"%m6%\"]]], tags: [t]}\ndecorators:\n  - {tag: t, decorator: Dec, arguments: [\"@g5\", \"%m7%\"]}\n  - {tag: t, decorator: Dec, arguments: [\"@g6\"]}\n"), Runs: runs, Labels: []string{"multi:missing-names"}},
 		{Files: y("parameters:\n  \"bad 1\": 1\n  \"bad 2\": [1]\n  ok: {a: 1}\nservices:\n  \"bad svc\": {}\n  s1: {constructor: \"not a func\", getter: MustX, tags: [t, t, \"bad tag\"], fields: {\"1a\": 1, \"2b\": [1]}, calls: [[\"M-\", [[1]]]]}\n  s2: {value: \"{}\", type: \"**\", arguments: [1]}\ndecorators:\n  - {tag: \"bad tag\", decorator: \"not a func\", arguments: [[1]]}\n  - {tag: \"\", decorator: \"\"}\n"), Runs: runs, Labels: []string{"multi:grammar"}},
 		{Files: y("parameters:\n  a: \"%x(%\"\n  b: \"%unknown()%\"\n  c: \"%\"\n  d: \"%a b%\"\n  e: \"%f()% %g()%\"\n"), Runs: runs, Labels: []string{"multi:tokens"}},
